@@ -21,6 +21,7 @@ META = {
         "RuntimeWarning 'never awaited', 'Task was destroyed but it is pending' and unraisable "
         "exceptions inside a scenario are violations. "
         "20% of the twins use coroutine-function wrappers (functools.wraps) around plain functions returning awaitables; a separate shard puts coroutine guards in the deciding position of guard expressions. "
+        "Some callbacks are plain functions returning a Future, re-activation steps (awaitable inside a loop), clone steps. "
         "distinct_nontrivial = distinct (coroutine-subset "
         "mode, driver, scenario class [nested sends / faults / guards async], suspended at least once)."
     ),
